@@ -215,7 +215,7 @@ class ECommand(Command):
             for i, p in enumerate(src):
                 if not os.path.exists(p):
                     raise WorkflowExecutionException(f"Job {job.name} input does not exist: File {p}")
-                dst = os.path.join(job.output_directory, f"r{i}-{PurePath(job.name).parts[1]}")
+                dst = os.path.join(job.output_directory, f"r{i}-{PurePath(job.name).parts[1]}-{get_job_tag(job.name)}")
                 shutil.copy(p, dst)
                 outs.append(dst)
             value = outs if self.out_kind == "list" else outs[0]
